@@ -126,6 +126,24 @@ Theorem T09_4_false_means_all_fixed :
 Proof. exact format_files_false_all_fixed. Qed.
 Print Assumptions T09_4_false_means_all_fixed.
 
+(* T09.7 the orientation heuristic fixes._orelse_preferred_as_body (used by swap_if_else, early_return,
+   early_continue) is antisymmetric on well-formed branch summaries without dead code, unless both
+   branches are only `pass`: a swap it asks for is never asked back *)
+Theorem T09_7_orientation_antisymmetric :
+  forall b o : branch,
+    branch_wf b = true -> branch_wf o = true -> no_dead_code b = true -> no_dead_code o = true ->
+    br_all_pass b && br_all_pass o = false ->
+    orelse_preferred b o = true -> orelse_preferred o b = false.
+Proof. exact orelse_preferred_antisym. Qed.
+Print Assumptions T09_7_orientation_antisymmetric.
+
+(* ... and is NOT without the no-dead-code guard (a branch `return ...; if ...: ...`) *)
+Theorem T09_7_orientation_antisymmetric_refuted :
+  exists b o, branch_wf b = true /\ branch_wf o = true /\ br_all_pass b && br_all_pass o = false
+              /\ orelse_preferred b o = true /\ orelse_preferred o b = true.
+Proof. exact orelse_preferred_antisym_refuted. Qed.
+Print Assumptions T09_7_orientation_antisymmetric_refuted.
+
 (* non-vacuity / contrast: fix() does not cut a cycle that avoids the initial text (its result
    depends on the parity of max_iter), format_code's loop does *)
 Example T09_example_fix_vs_history_loop :
